@@ -29,6 +29,9 @@ COMPS = reg.COMPONENTS
 # texts with a non-ASCII character, and every ASCII / normalised / escaped re-spelling of them (as
 # plain strings): an object holding the former must not compare equal to any of the latter
 NONASCII = ["É", "DE89É70400440532013000", "GENODEÉ1", "٣70400440532013000"]
+# percent signs (a text that is still percent-encoded after one decoding), texts longer than any code
+ODD_TEXTS = ["DE89%25203704", "%41", "A%20B", "%2541", "DE89370400440532013000" * 2, "9" * 35, "A" * 40,
+             "GENODEM1GLS" * 4]
 
 
 def respellings(t: str) -> list[str]:
@@ -62,6 +65,11 @@ def build_values():
         vals.append((f"BBAN:DE:{t!r}", (lambda t=t: lib.BBAN("DE", t))))
         for r in respellings(t):
             vals.append((f"str:{r!r}", (lambda r=r: r)))
+    for t in ODD_TEXTS:
+        vals.append((f"str:{t!r}", (lambda t=t: t)))
+        vals.append((f"IBAN*:{t!r}", (lambda t=t: lib.IBAN(t, allow_invalid=True))))
+        vals.append((f"BIC*:{t!r}", (lambda t=t: lib.BIC(t, allow_invalid=True))))
+        vals.append((f"BBAN:DE:{t!r}", (lambda t=t: lib.BBAN("DE", t))))
     for t in NUMERIC_BBANS:
         for cc in ("DE", "GB"):
             vals.append((f"BBAN:{cc}:{t!r}", (lambda t=t, cc=cc: lib.BBAN(cc, t))))
